@@ -493,9 +493,86 @@ var c11Random = &vlib.Check{
 	},
 }
 
+// c11Split: a run of directives (without parentheses and without JSIGHT) of a random sequence is moved into an included
+// file: INCLUDE is a textual insertion, so the context rules give the verdict class of the unsplit sequence.
+func ctxClassOf(msg string) string {
+	switch {
+	case strings.HasPrefix(msg, "incorrect context for the directive") && strings.Contains(msg, "with the \"Path\" parameter"):
+		return "ctxpath"
+	case strings.HasPrefix(msg, "incorrect context for the directive"):
+		return "ctx"
+	case strings.HasPrefix(msg, "nothing to close"):
+		return "noclose"
+	case strings.HasPrefix(msg, "this opening parenthesis is not closed"):
+		return "unclosed"
+	case strings.HasPrefix(msg, "there is no directive to which this element could belong"):
+		return "nodirective"
+	}
+	return ""
+}
+
+func c11SplitOracle(c *vlib.Case) *vlib.Violation {
+	items := ctxItems(c)
+	_, lines := ctxRender(items)
+	want := ctxReference(items, lines)
+	b := vlib.Build(c.Project)
+	defer b.Close()
+	if b.Out.Crashed() {
+		return nil
+	}
+	got := ""
+	if b.Out.Err() {
+		got = ctxClassOf(b.Out.Msg)
+	}
+	if got != want.class {
+		return vlib.V("c11:split-verdict:"+want.class+"-vs-"+got, "sequence %v with items [%v,%v) moved into an included file: reference %s, implementation %s", items, c.Params["from"], c.Params["to"], ctxVerdictStr(want), b.Out.Brief())
+	}
+	return nil
+}
+
+var c11Split = &vlib.Check{
+	Prop: "C11", Name: "split", Quick: 6000, Thorough: 300000,
+	Oracle: c11SplitOracle,
+	Classify: func(c *vlib.Case) (bool, []string) {
+		nt, cls := c11Classify(c)
+		return nt, append(cls, "split")
+	},
+	SampleOf: func(c *vlib.Case) any { return c.Project.Summary(300) },
+	Gen: func(t *rapid.T) *vlib.Case {
+		base := c11Random.Gen(t)
+		r := vlib.RapidRnd{T: t}
+		items := ctxItems(base)
+		ok := func(it int) bool {
+			return it >= 0 && it%2 == 0 && ctxKinds[it/2].name != "JSIGHT" && ctxKinds[it/2].name != "INCLUDE"
+		}
+		// a maximal run of movable items around a random position
+		var starts []int
+		for i := 1; i < len(items); i++ {
+			if ok(items[i]) {
+				starts = append(starts, i)
+			}
+		}
+		if len(starts) == 0 {
+			return nil
+		}
+		from := vlib.Pick(r, starts)
+		to := from + 1
+		for to < len(items) && ok(items[to]) && vlib.Chance(r, 2, 3) {
+			to++
+		}
+		head, _ := ctxRender(items[:from])
+		part, _ := ctxRender(items[from:to])
+		tail, _ := ctxRender(items[to:])
+		p := &vlib.Project{Root: "root.jst", Files: map[string][]byte{"root.jst": []byte(head + "INCLUDE part.jst\n" + tail), "part.jst": []byte(part), "empty.jst": {}}}
+		base.Project = p
+		base.Params["from"], base.Params["to"] = from, to
+		return base
+	},
+}
+
 var c11Triples = &vlib.Check{Prop: "C11", Name: "triples", Oracle: c11Oracle, Classify: c11Classify}
 
-func init() { vlib.Register(c11Enum, c11Random, c11Triples) }
+func init() { vlib.Register(c11Enum, c11Random, c11Triples, c11Split) }
 
 func TestC11(t *testing.T) {
 	ev := vlib.Ev("C11")
@@ -553,4 +630,5 @@ func TestC11(t *testing.T) {
 		})
 	}
 	t.Run("random", c11Random.Run)
+	t.Run("split", c11Split.Run)
 }
